@@ -184,6 +184,34 @@ pub fn graph_scenario(idx: usize, rng: &mut Rng, o: &GraphOpts, family: &str) ->
                 applied_of(&w, rng.below(n))
             };
             let mine: BTreeSet<String> = applied_of(&w, r).into_iter().collect();
+            // C06/C38: one batch that carries two different new changes with the same (actor, seq), after other new
+            // changes: the call must fail and leave applied set and queue as they were
+            if o.dup_actors && rng.chance(1, 3) {
+                let mut twins: Vec<(String, String)> = vec![];
+                let ks: Vec<&String> = w.known.keys().collect();
+                for i in 0..ks.len() {
+                    for j in (i + 1)..ks.len() {
+                        let (a, b) = (&w.known[ks[i]], &w.known[ks[j]]);
+                        if a.actor_id() == b.actor_id() && a.seq() == b.seq() && !mine.contains(ks[i]) && !mine.contains(ks[j]) {
+                            twins.push((ks[i].clone(), ks[j].clone()));
+                        }
+                    }
+                }
+                if !twins.is_empty() {
+                    let (ta, tb) = twins[rng.below(twins.len())].clone();
+                    let mut batch: Vec<String> = w.known.keys().filter(|h| !mine.contains(*h) && **h != ta && **h != tb && rng.chance(1, 2)).take(3).cloned().collect();
+                    rng.shuffle(&mut batch);
+                    batch.push(ta);
+                    if rng.chance(1, 3) && !batch.is_empty() {
+                        let x = batch.remove(0);
+                        batch.push(x);
+                    }
+                    batch.push(tb);
+                    let via = *rng.pick(&["apply", "batch", "loadinc"]);
+                    w.deliver(r, via, &batch);
+                    continue;
+                }
+            }
             let mut cand: Vec<String> = pool.into_iter().filter(|h| !mine.contains(h) || rng.chance(1, 10)).collect();
             if cand.is_empty() {
                 continue;
